@@ -127,10 +127,11 @@ def c14_sched(job, drv):
 
         def refs():
             out = {}
-            for key in set(job["keys"]):
-                rq = protokeys[key]
-                r = drv.serve_once(cfg_ref, drv.s2b(rq["data"]), tls=rq["tls"])
-                out[key] = h.mask(drv.s2b(r["out"]))
+            with h.nocache():
+                for key in set(job["keys"]):
+                    rq = protokeys[key]
+                    r = drv.serve_once(cfg_ref, drv.s2b(rq["data"]), tls=rq["tls"])
+                    out[key] = h.mask(drv.s2b(r["out"]))
             return out
 
         kind = job["kind"]
@@ -540,7 +541,7 @@ def _burst(port, rqs, stagger_handshake, offsets=None, send_delays=None, rogues=
     return [o if o is not None else (b"", "client thread did not finish") for o in outs]
 
 
-def _write_conf(repo, root, servertype, path):
+def _write_conf(repo, root, servertype, path, overrides=None):
     import configparser
     cp = configparser.ConfigParser()
     cp.read(os.path.join(repo, "conf", "pygopherd.conf"))
@@ -555,6 +556,11 @@ def _write_conf(repo, root, servertype, path):
             cp.remove_option("pygopherd", opt)
     cp.set("logger", "logmethod", "file")
     cp.set("handlers.dir.DirHandler", "cachetime", "180")
+    for sec, opts in (overrides or {}).items():
+        if not cp.has_section(sec):
+            cp.add_section(sec)
+        for k, v in opts.items():
+            cp.set(sec, k, v)
     with open(path, "w") as f:
         cp.write(f)
 
@@ -576,7 +582,7 @@ def c14_stress(job, drv):
     try:
         for servertype in job["servertypes"]:
             conf = os.path.join(w.tmp, "conf-%s.conf" % servertype)
-            _write_conf(repo, w.root, servertype, conf)
+            _write_conf(repo, w.root, servertype, conf, job.get("config"))
             out = {"bursts": [], "mismatches": []}
             # ---- sequential answers ----
             _clear_caches(w.root)
@@ -801,6 +807,8 @@ def c14_lazy(job, drv):
     import implops_c10 as h
     w = drv.World({"tree": job["tree"]})
     alarm_was, drv._alarm_ok = drv._alarm_ok, False          # requests run in worker threads here
+    nc = h.nocache()
+    nc.__enter__()
     try:
         cfg = h.cacheless_config(drv, w.root, {})      # no directory cache: this leg is about the lazies only
         codes = _lazy_codes()
@@ -896,6 +904,7 @@ def c14_lazy(job, drv):
         return {"trials": trials, "sites": sites, "bad": bad[:20], "nbad": len(bad), "lazy_sites": sorted(codes.values())}
     finally:
         sys.settrace(None)
+        nc.__exit__()
         drv._alarm_ok = alarm_was
         w.close()
 
@@ -938,8 +947,9 @@ def c14_probe_list(job, drv):
                 if hangs >= 2:
                     break
                 pn, ln = probe + " " + sel, lister + " " + sel
-                ref_probe, _ = timed(cfg_ref, pn)
-                ref_list, _ = timed(cfg_ref, ln)
+                with h.nocache():
+                    ref_probe, _ = timed(cfg_ref, pn)
+                    ref_list, _ = timed(cfg_ref, ln)
                 # cache state before the probe
                 if os.path.exists(cachepath):
                     os.unlink(cachepath)
